@@ -8,12 +8,11 @@
  * contract proved for the loop_* bodies in loops.h (at a ghost index). */
 #ifndef NV_C10_WL_H
 #define NV_C10_WL_H
-#include "nv_tensor.h"
+#include "types.h"
 struct nv_t4 { int64_t id; int64_t rows; };                 /* tensor4d_t, tensor4d_map_t: identity + size<0>() */
 struct nv_row { int64_t tensor; int64_t row; };             /* Eigen::Map<[const] VectorXd> = tensor.vector(row) */
 struct nv_dataset { int64_t samples; int32_t ftype; };      /* dataset_t: samples(), type of the selected feature */
 struct nv_cluster { int64_t samples; int64_t groups; };     /* cluster_t: samples(), groups() */
-#define NV_ISFIN(x) (!__CPROVER_isnand(x) && !__CPROVER_isinfd(x))
 
 /* ghost: the sample position and feature value the universally quantified statement is instantiated at */
 int64_t nv_g; double nv_v;
